@@ -29,6 +29,14 @@ CHECKS = {
    text="Decides the structural part of the identity binding on every path: each accepting path of Block::validate (outside the SPV-mode and ghost exits) passes the equal edge of merkle_root vs the root recomputed from the carried transactions and the true edge of the creator-signature check; the signed bytes read merkle_root/creator/id/timestamp/previous_block_hash, pre_hash = hash(signed bytes), hash = hash(previous_block_hash ++ pre_hash); verify_block forwards a fetched block only on the equal edges of the advertised id/hash comparisons. Does not decide collision resistance of the merkle construction.",
    note=TRUST,
    technique="static analysis: must-pass-through (edge-deletion reachability with boolean path sensitivity) over the MIR CFG, operand provenance by expression chasing"),
+ "C07": dict(level="other",
+   text="Decides that producer and validator are siblings of one computation: Block::create and Block::validate obtain consensus values from the same callee; Mempool::can_bundle_block and Block::validate compute the required work with the same function and the same argument provenance (parent burn fee, new block's timestamp, parent timestamp, heartbeat); for each of the 24 header fields the validator compares with a consensus value, the producer fills that field from the same consensus value, and the derived treasury/graveyard formulas are the same linear forms over cv.* and parent fields. Does not decide equality of the computed values across nodes and inputs (floating point, rebroadcast sets, lottery) - the substance of C07 is dynamic.",
+   note=TRUST,
+   technique="static analysis: sibling cross-check of field/consensus-value correspondence and argument provenance extracted from MIR"),
+ "C18": dict(level="other",
+   text="Decides header coverage of the lite projection: each of the 32 Block fields that enter the signed bytes or the fixed wire header (plus hash and signature) is copied by generate_lite_block from the same field of the full block, merkle_root is recomputed from the projected transaction list, and the per-transaction chooser can build a placeholder only when neither inputs nor outputs touch a listed key. Does not decide placeholder merging or the recomputed commitment (the exponential pattern space the property names).",
+   note=TRUST,
+   technique="static analysis: field-copy coverage against identity sets derived from the serialisers, control-dependence of the placeholder branch"),
  "C08": dict(level="other",
    text="Decides that the routing-work requirement and the golden-ticket check are gates on every accepting path of Block::validate for a block with a known parent, that the requirement is computed from (parent burn fee, own timestamp, parent timestamp, heartbeat), that the ticket is re-targeted at the parent hash and checked against the parent difficulty, and that a failed routing-path / hop-signature check rejects a transaction. Does not decide monotonicity or bounds of the floating-point work function nor payout eligibility and amounts (value level).",
    note=TRUST,
